@@ -19,7 +19,15 @@ RULE = ("cases = corpus + N histories on ONE BackwardEngine: 2..6 queries (mostl
         "value, directly or through a rule); + N/6 large-store histories (36..80 extra facts and/or 1..5 strings of 300..900 "
         "letters whose names sort before / between / after the fields the rules use, so that the engine's key text is far beyond "
         "1024 bytes; half of them change only the LAST-sorting relevant fact between two askings, the other half are the random "
-        "histories on top of such a store, which sometimes grows past the limit in mid-history). Before every query the "
+        "histories on top of such a store, which sometimes grows past the limit in mid-history); + N/10 whitespace look-alike "
+        "histories (string pairs equal after deleting blanks — \"a b\"/\"ab\", \" \"/\"\", \"John Smith\"/\"JohnSmith\" … — as two "
+        "query literals on unchanged facts, as a fact value changed to its look-alike between two askings of a direct or "
+        "rule-derived goal, and in a bystander fact as control); + N/10 error-path histories (query_aggregate with a malformed "
+        "query from a fixed set of 8 — 6 whose header parses and whose WHERE pattern does not, 2 rejected earlier — followed by "
+        "negated goals a rule chain derives, plain and aggregate queries, derived facts removed in between; DFS 3/5, "
+        "max_solutions 1 in 4/5); + N/10 Null histories (a fact goes absent -> Null -> absent / to and from ordinary values "
+        "between askings of `F == null`, `F != null` or a goal derived through `F == null`, `F != null`, the test exists(F); "
+        "Null bystanders come and go as control). Before every query the "
         "harness deep-copies the caller's facts and asks a FRESHLY BUILT engine (same rules, same configuration); observed per "
         "query: the long-lived engine's verdict, the fresh engine's verdict, whether the call was answered without searching "
         "(stats.goals_explored == 0), and the key text (query, max_solutions, canonical facts before; a 128-bit digest of it when "
